@@ -225,12 +225,24 @@ Section Abstraction.
     | [] => Plain TOther
     end.
 
-  (* one j5.schema.v1.ObjectProperty at location path [q]; [src] = the path of the sourcewalk node errors go to *)
+  (* one j5.schema.v1.ObjectProperty at location path [q]; [src] = the path of the sourcewalk PropertyNode errors go to
+     (schema.go mapProperties); the RefNode of its (item) type: property.go buildFieldNode *)
+  Definition ref_path (q src : path) : path :=
+    let sch := q ++ ["schema"] in
+    match child_names t sch with
+    | arm :: _ =>
+        if String.eqb arm "array" then
+          src ++ ["schema"; "array"; "items"] ++ (match child_names t (sch ++ ["array"; "items"]) with k :: _ => [k] | [] => [] end) ++ ["ref"]
+        else if String.eqb arm "map" then
+          src ++ ["schema"; "map"; "itemSchema"] ++ (match child_names t (sch ++ ["map"; "itemSchema"]) with k :: _ => [k] | [] => [] end) ++ ["ref"]
+        else src ++ ["schema"; arm; "ref"]
+    | [] => src ++ ["schema"; "ref"]
+    end.
   Definition abs_lprop (q src : path) : lprop :=
     let sch := q ++ ["schema"] in
     let nilsch := match child_names t sch with [] => true | _ => false end in
     mkLP (mkProp nilsch (abs_shape sch) (bool_at vals (q ++ ["required"])) (bool_at vals (q ++ ["explicitlyOptional"])))
-         src (src ++ ["schema"; "ref"]).
+         src (ref_path q src).
 
   Definition abs_props (q src : path) : list lprop :=
     map (fun k => abs_lprop (q ++ [k]) (src ++ [k])) (child_names t q).
@@ -271,15 +283,15 @@ Section Abstraction.
     | kind :: _ =>
         let q := e ++ [kind] in
         if String.eqb kind "object" then
-          [LObject q (loc_has t (q ++ ["def"; "entity"])) (abs_props (q ++ ["def"; "properties"]) (q ++ ["object"; "def"; "properties"]))]
+          [LObject (q ++ ["object"]) (loc_has t (q ++ ["def"; "entity"])) (abs_props (q ++ ["def"; "properties"]) (q ++ ["object"; "def"; "properties"]))]
         else if String.eqb kind "oneof" then
-          [LOneof q (abs_props (q ++ ["def"; "properties"]) (q ++ ["oneof"; "def"; "properties"]))]
+          [LOneof (q ++ ["oneof"]) (abs_props (q ++ ["def"; "properties"]) (q ++ ["oneof"; "def"; "properties"]))]
         else if String.eqb kind "enum" then
           [LEnum q (mkEnum (Nat.ltb 0 (child_count t (q ++ ["info"])))
                           (map (fun o => loc_has t (q ++ ["options"; o; "info"])) (child_names t (q ++ ["options"]))))]
         else if String.eqb kind "service" then
           [LService q (loc_has t (q ++ ["options"]))
-                    (map (fun m => (abs_method (q ++ ["methods"; m]), q ++ ["methods"; m])) (child_names t (q ++ ["methods"])))]
+                    (map (fun m => (abs_method (q ++ ["methods"; m]), q ++ ["methods"; m; "request"])) (child_names t (q ++ ["methods"])))]
         else if String.eqb kind "topic" then [LTopic q (abs_topic q)]
         else []
     | [] => []
@@ -293,16 +305,15 @@ Definition E_UNMODELLED : string := "walker: outside the model".
 
 Definition j5s_walk (resolve : list N -> list N -> ref_out) (body : list stmt) : outcome walk_out :=
   match walk_schema body with
-  | ROk _ s =>
+  | SOk s =>
       match validate s with
       | VlOk [] => Ok (WalkFile (ws_loc s) (abs_decls resolve (ws_loc s) (ws_vals s)))
       | VlOk vs => Ok (WalkErrs (map (violation_span (ws_loc s)) vs))
       | VlUnmod _ => Err E_UNMODELLED
       end
-  | RErr (Some sp) _ => Ok (WalkErrs [sp])
-  | RErr None _ => Panic "walker: error without a position left doBody"
-  | RPanic x => Panic x
-  | RUnmod _ => Err E_UNMODELLED
+  | SErr sp _ => Ok (WalkErrs [sp])
+  | SPanic x => Panic x
+  | SUnmod _ => Err E_UNMODELLED
   end.
 
 (* every reference resolves nowhere: the file alone, nothing else in its package *)
